@@ -257,9 +257,11 @@ func cmdCheck(args []string) int {
 		return 2
 	}
 	cfg := defaultConfig()
+	cfg.CrossCheck = 25
 	if tier == "thorough" {
 		cfg.QueryTimeout = 60000
 		cfg.StepBudget = 20_000_000
+		cfg.CrossCheck = 250
 	}
 	g, err := loadEngine(cfg)
 	if err != nil {
@@ -600,6 +602,7 @@ func writeEvidence(prop, tier string, seed int, results []*HarnessResult, spec C
 	harn := []interface{}{}
 	stubsUsed := map[string]int{}
 	covers := map[string]int{}
+	cross, crossUnk, crossDis, rangeEx, cacheHits := 0, 0, 0, 0, 0
 	exhaustive := true
 	for _, r := range results {
 		states += r.Ends["complete"]
@@ -614,6 +617,11 @@ func writeEvidence(prop, tier string, seed int, results []*HarnessResult, spec C
 		if r.TimedOut {
 			exhaustive = false
 		}
+		cross += r.CrossChecked
+		crossUnk += r.CrossUnknown
+		crossDis += r.CrossDisagree
+		rangeEx += r.RangeExcluded
+		cacheHits += r.CacheHits
 		for i, s := range r.Samples {
 			if i < 3 {
 				samples = append(samples, map[string]interface{}{"harness": r.Harness, "path": s})
@@ -656,7 +664,10 @@ func writeEvidence(prop, tier string, seed int, results []*HarnessResult, spec C
 			"explanation": "bounded symbolic model checking of the go/ssa form of /repo (regenerated this run): states = complete feasible symbolic paths (each covers all values of its symbolic inputs; for concurrent harnesses one path = one schedule class × symbolic data), transitions = SSA instructions executed symbolically; assertions are SMT queries (z3) over the path condition",
 			"harnesses": harn, "functions_encoded": fns, "bounds": spec.Bounds, "outside_bounds": spec.Outside,
 			"queries": map[string]interface{}{"total": queries, "sat": st.Sat, "unsat": st.Unsat, "unknown": st.Unknown, "errors": st.Errors, "branches_folded_without_query": folded},
-			"solver_s": st.Time.Seconds(), "solvers": []string{"z3 4.8.12 (-in, push/pop)"}, "stubs_used": stubsUsed, "covers": covers,
+			"solver_s": st.Time.Seconds(), "solvers": []string{"z3 4.8.12 (-in, push/pop)", "cvc5 1.0 (--incremental) for the cross-checked sample"},
+			"cross_checked": map[string]interface{}{"assertion_verdicts_re_asked_to_cvc5": cross, "cvc5_unknown": crossUnk, "disagreements": crossDis, "rule": "every counterexample and the first K unsat assertion verdicts per worker and harness (K=25 quick, 250 thorough); a disagreement makes the run INCONCLUSIVE"},
+			"decided_without_query": map[string]interface{}{"by_cached_model_or_syntactic_implication": cacheHits},
+			"assertions_excluded_out_of_range_float_to_int": rangeEx, "stubs_used": stubsUsed, "covers": covers,
 			"inconclusive": inconc, "known_findings_matched": known,
 		},
 	}
